@@ -269,6 +269,16 @@ func (e *entryInfo) checkOne(what string, seq string) error {
 			if len(evs) != 1 || left != 0 || evs[0] != want {
 				return fmt.Errorf("%s: ESC + %q decodes to %s (%d left), want %s", e.Name, seq[1:], inref.Show(evs), left, want)
 			}
+			if seq[1] >= 0x80 {
+				// a multi-byte character arriving in two reads keeps its Alt
+				for cut := 1; cut < len(seq); cut++ {
+					in3, _ := e.decoder()
+					got, l3 := decodeAll(in3, [][]byte{[]byte(seq[:cut]), []byte(seq[cut:])})
+					if len(got) != 1 || l3 != 0 || got[0] != want {
+						return fmt.Errorf("%s: ESC + %q arriving as %q then %q decodes to %s (%d left), want %s", e.Name, seq[1:], seq[:cut], seq[cut:], inref.Show(got), l3, want)
+					}
+				}
+			}
 		case "after-esc-esc":
 			// ESC ESC + expiry is one Esc key (with or without Alt - the statement
 			// leaves that open), and the Alt prefix must not outlive it: the key
